@@ -6,13 +6,13 @@ from .extract import Emitter, Source, Module
 VERIF = os.path.dirname(os.path.dirname(os.path.abspath(__file__)))
 
 
-def gen_lib(repo, only=None):
+def gen_lib(repo, only=None, probe=False):
     sys.path.insert(0, VERIF)
     from contracts import lib
     Source.reset()
-    em = Emitter(repo)
+    em = Emitter(repo, probe=probe)
     em.add(lib.ROOT_HEADER)
-    em.add('verus! {\n')
+    em.add('verus! {\npub uninterp spec fn vx_probe(i: int) -> bool;\n')
     with open(os.path.join(VERIF, 'prelude', 'vx.rs'), encoding='utf-8') as f:
         em.add(f.read())
     for mod in lib.modules(repo):
@@ -21,13 +21,13 @@ def gen_lib(repo, only=None):
     return em
 
 
-def gen_tools(repo):
+def gen_tools(repo, probe=False):
     sys.path.insert(0, VERIF)
     from contracts import tools
     Source.reset()
-    em = Emitter(repo)
+    em = Emitter(repo, probe=probe)
     em.add(tools.ROOT_HEADER)
-    em.add('verus! {\n')
+    em.add('verus! {\npub uninterp spec fn vx_probe(i: int) -> bool;\n')
     for mod in tools.modules(repo):
         em.emit_module(mod)
     em.add('\n} // verus!\nfn main() {}\n')
